@@ -12,6 +12,7 @@ import (
 	"os/exec"
 	"strconv"
 	"strings"
+	"sync/atomic"
 	"time"
 )
 
@@ -175,13 +176,63 @@ func (s *Solver) readLine() (string, error) {
 }
 
 // Check runs check-sat on the current assertion stack.
+// restart replaces a solver process that had to be killed and replays the transcript (the
+// lines sent per push level), so that the mirror of the path condition is intact again.
+func (s *Solver) restart() error {
+	if s.cmd != nil {
+		s.in.Close()
+		s.cmd.Process.Kill()
+		s.cmd.Wait()
+	}
+	s.cmd = exec.Command(s.bin, s.args...)
+	in, err := s.cmd.StdinPipe()
+	if err != nil {
+		return err
+	}
+	out, err := s.cmd.StdoutPipe()
+	if err != nil {
+		return err
+	}
+	if err := s.cmd.Start(); err != nil {
+		return err
+	}
+	s.in = in
+	s.out = bufio.NewReaderSize(out, 1<<16)
+	for l, lv := range s.lines {
+		if l > 0 {
+			s.raw("(push 1)")
+		}
+		for _, ln := range lv {
+			s.raw(ln)
+		}
+	}
+	return nil
+}
+
 func (s *Solver) Check() SatResult {
 	t0 := time.Now()
 	s.raw("(check-sat)")
 	res := Unknown
 	errSeen := false
+	// hard watchdog: the solver's own (soft) time limit is not honoured in every phase; a query
+	// that is still running well after it is killed and answered `unknown` (never a pass)
+	var killed int32
+	proc := s.cmd.Process
+	wd := time.AfterFunc(time.Duration(s.timeoutS*3+20)*time.Second, func() {
+		atomic.StoreInt32(&killed, 1)
+		proc.Kill()
+	})
+	defer wd.Stop()
 	for {
 		line, err := s.readLine()
+		if err != nil && atomic.LoadInt32(&killed) == 1 {
+			s.stats.Errors++
+			if rerr := s.restart(); rerr != nil {
+				panic(abortErr{"solver killed by the watchdog and could not be restarted: " + rerr.Error()})
+			}
+			res = Unknown
+			break
+		}
 		if err != nil {
 			s.lastErr = "solver died: " + err.Error()
 			s.stats.Errors++
